@@ -444,7 +444,10 @@ impl Ctx {
                         cases: per as u32,
                         failure_persistence: None,
                         max_shrink_iters: 4096,
-                        max_global_rejects: 65536,
+                        // rejects are counted over the whole run of a shard, not per case: a filter that
+                        // drops 1% of the values must not abort a run of millions of cases
+                        max_global_rejects: u32::MAX,
+                        max_local_rejects: u32::MAX,
                         ..Config::default()
                     };
                     let mut runner = TestRunner::new_with_rng(config, rng);
